@@ -216,6 +216,7 @@ def execute(case: dict) -> dict:
         def t_group():
             t = op.T
             o['T_is_self'] = t is op
+            o['claims_symmetric'] = bool(lx.is_symmetric(op))
             Mt = terms.dense_of(t)
             o['T_ok'], o['T_err'] = _close(Mt, want.T, tol, rel=True)
             o['T_structs'] = (t.in_structure() == op.out_structure()) and (t.out_structure() == op.in_structure())
@@ -365,8 +366,10 @@ def judge(prop: str, cases: list[dict], results: list[dict], verd: fx.Verdicts) 
                 if key.endswith('_exc') and key not in ('I_exc', 'ctor_exc'):
                     bad.append('raised:' + key[:-4])
             if prop == 'C03':
-                if case['t_is_self'] and o.get('T_is_self') is False:
-                    bad.append('symmetric_class_T_not_self')
+                # "symmetric operators return themselves": judged on what the real operator declares, not on the
+                # class table of the spec (a class may legitimately stop being declared symmetric)
+                if o.get('claims_symmetric') and o.get('T_is_self') is False:
+                    bad.append('symmetric_operator_T_not_self')
             if prop == 'C08':
                 if o.get('untruthful'):
                     bad.append('untruthful_tag:' + ','.join(o['untruthful']))
